@@ -220,6 +220,25 @@ def lk5(ctx, flavours):
     return out
 
 
+def lk_try(ctx, flavours):
+    """the outcome of an operation must not depend on contention: no try_read / try_write / try_lock (a failed try is reported to
+    the caller as a data outcome -- 'no such edge' -- that no sequential order of the operations explains)"""
+    F = ctx.F
+    out = []
+    TRY = ('std::sync::RwLock::try_read', 'std::sync::RwLock::try_write', 'std::sync::Mutex::try_lock')
+    for fl in flavours:
+        for b in F.by_flavour(fl):
+            if b['kind'] == 'Closure' or b['q'] in getattr(F, 'absorbed', ()):
+                continue
+            acq = [(bi, t) for bi, t in calls_in(b) if t['callee'] in ACQ]
+            if not acq:
+                continue
+            bad = ['%s at %s' % (t['callee'].split('::')[-1], t['sp']) for bi, t in acq if t['callee'] in TRY]
+            out.append(Obl('LK-TRY', b['q'], b['span'], 'every acquisition waits for the lock (%d acquisition sites)' % len(acq), not bad,
+                           'blocking acquisitions only' if not bad else 'non-blocking acquisition whose failure becomes a result: ' + ', '.join(bad)))
+    return out
+
+
 ITER_STRUCTS = ('IterOut', 'IterIn', 'NodeIterator', 'PathEdgeIterator', 'PathNodeIterator', 'Bfs', 'Dfs', 'Pfs', 'Order', 'Path', 'Edge', 'Graph')
 
 
